@@ -43,6 +43,9 @@ type ViewCase struct {
 	Genesis  sim.GenesisCase `json:"genesis"`
 	Trunk    []SlotPlan      `json:"trunk"` // Trunk[i] is slot i+1
 	Branches []BranchCase    `json:"branches,omitempty"`
+	// Anchored: the RECEIVING node was checkpoint-synced: it knows the finalized block and what descends from it,
+	// nothing before it (senders know the whole tree)
+	Anchored bool `json:"anchored,omitempty"`
 }
 
 // Record is the reference-side description of one registered entry (what gossipmodel consumes).
@@ -521,3 +524,53 @@ func (v *View) HeadStateRoot() common.Root { return v.head.state.HashTreeRoot(tr
 
 var _ beacon.Chain = (*View)(nil)
 var _ beacon.ChainEntry = (*Entry)(nil)
+
+// Anchored returns the view of a node that was checkpoint-synced at this view's finalized block: only that block
+// and its descendants are known (entries of earlier blocks and of branches that do not descend from it are
+// unknown roots). Checkpoints, head and genesis information are unchanged. KeepRoots reports which roots stay.
+func (v *View) Anchored() (*View, map[common.Root]bool) {
+	keep := map[common.Root]bool{v.fin.Root: true}
+	for changed := true; changed; {
+		changed = false
+		for _, e := range v.entries {
+			if !keep[e.blockRoot] && keep[e.parentRoot] && e.blockRoot != v.fin.Root {
+				keep[e.blockRoot] = true
+				changed = true
+			}
+		}
+	}
+	a := &View{Spec: v.Spec, Lock: v.Lock, Records: v.Records, head: v.head, genesis: v.genesis, fin: v.fin, just: v.just,
+		genesisInfo: v.genesisInfo, byBlock: map[common.Root]*Entry{}, byBlockSlot: map[rootSlot]*Entry{}, byStateRoot: map[common.Root]*Entry{},
+		children: map[common.Root][]common.Root{}, canon: map[common.Step]*Entry{}, derived: map[rootSlot]*Entry{}}
+	for _, e := range v.entries {
+		if keep[e.blockRoot] {
+			a.entries = append(a.entries, e)
+		}
+	}
+	for k, e := range v.byBlock {
+		if keep[k] {
+			a.byBlock[k] = e
+		}
+	}
+	for k, e := range v.byBlockSlot {
+		if keep[k.root] {
+			a.byBlockSlot[k] = e
+		}
+	}
+	for k, e := range v.byStateRoot {
+		if keep[e.blockRoot] {
+			a.byStateRoot[k] = e
+		}
+	}
+	for k, c := range v.children {
+		if keep[k] {
+			a.children[k] = c
+		}
+	}
+	for k, e := range v.canon {
+		if keep[e.blockRoot] {
+			a.canon[k] = e
+		}
+	}
+	return a, keep
+}
